@@ -533,6 +533,25 @@ func c01KnownF3(routes []rRoute, q rReq, o rObs) string {
 	return ""
 }
 
+// c01Tolerable: a context of the application's making with FEWER value slots than the widest route has parameters is outside the
+// documented precondition of Router.Find.  The model mirrors the present code there (index out of range, `C01_short_ctx`); an
+// implementation that answers instead of failing is judged by the oracle alone (the witness check of the property).  Tolerated:
+// model = panic, implementation = an ordinary outcome, on a direct-use case, table invariants agreeing.  Nothing else.
+func c01Tolerable(ci any, impl, model string) bool {
+	c, ok := ci.(*c01Case)
+	if !ok || c.Ctx == nil || rColonClash(c.Routes) {
+		return false
+	}
+	is := strings.Split(impl, " // ")
+	ms := strings.Split(model, " // ")
+	if len(is) != 3 || len(ms) != 3 || is[2] != ms[2] {
+		return false
+	}
+	mp := ms[0] == "P" || strings.HasPrefix(ms[0], "P ")
+	ip := is[0] == "P" || strings.HasPrefix(is[0], "P ")
+	return mp && !ip
+}
+
 // c01RunDirect: the router used directly on a context of the application's making
 func c01RunDirect(c *c01Case, wf bool, wfTag string) Result {
 	var cur rObs
@@ -580,6 +599,7 @@ func init() {
 		Shrink:         c01Shrink,
 		Mutate:         c01Mutate,
 		Known:          c01Known,
+		Tolerable:      c01Tolerable,
 		Correspondence: "Router.find ∘ Router.build (L3, lean/EchoModel/Router.lean) AND Router.Spec.routeTable (L1, the model of the theorems) vs Echo.Add + Echo.ServeHTTP (Router.insert/Find, context.ParamValues)",
 	})
 }
